@@ -430,3 +430,40 @@ Definition fill_query := (list field * bool * list string * list cell)%type.
 Definition fill_one (q : fill_query) : dst * result unit :=
   let '(fs, strict, cols, row) := q in fill_struct fs strict cols row (init_dest (unwrap_fields fs)).
 Definition fill_sequence (qs : list fill_query) : list (dst * result unit) := map fill_one qs.
+
+(* ===================================================================== part 4: the breaker around conn queries *)
+
+Definition EUnavailableQ : nat := 5.       (* breaker.ErrServiceUnavailable as a query status *)
+
+(* googleBreaker's history over its 10 s window (lib/breaker/googlebreaker.go): calls marked success, calls marked *)
+Record brk_state := mkbrk { bk_accepts : nat; bk_total : nat }.
+Definition brk_fresh : brk_state := mkbrk 0 0.
+
+(* accept(), googlebreaker.go:36-50: dropRatio = max(0, ((total - protection) - k*accepts) / (total+1)) with
+   k = 1.5, protection = 5; a call can be rejected (with that probability) only when dropRatio > 0,
+   i.e. 2*(total - 5) > 3*accepts *)
+Definition brk_may_reject (s : brk_state) : bool :=
+  Z.ltb (3 * Z.of_nat (bk_accepts s)) (2 * (Z.of_nat (bk_total s) - 5)).
+
+(* markSuccess / markFailure *)
+Definition brk_mark (ok : bool) (s : brk_state) : brk_state :=
+  mkbrk (bk_accepts s + (if ok then 1 else 0)) (S (bk_total s)).
+
+(* commonConn.queryRows, conn.go:288-309: the request's error is acceptable when it is nil, the very error
+   the scanner (unmarshalRow / unmarshalRows) produced - ErrNotFound, ErrNotMatchDestination, a Scan error... -
+   or db.acceptable(err); a panic leaves doReq unfinished: markFailure (googlebreaker.go:71-76) *)
+Definition query_marks_success (own : result unit) : bool :=
+  match own with Panic => false | _ => true end.
+
+(* doReq, googlebreaker.go:60-87: a rejected call returns ErrServiceUnavailable and marks nothing; a call let
+   through returns the request's own result and marks it *)
+Definition conn_query (s : brk_state) (own : result unit) (rejected : bool) : result unit * brk_state :=
+  if rejected then (Err EUnavailableQ, s) else (own, brk_mark (query_marks_success own) s).
+
+(* a run of queries none of which is rejected: could call i have been rejected?, and the final history *)
+Fixpoint run_stream (s : brk_state) (owns : list (result unit)) : list bool * brk_state :=
+  match owns with
+  | [] => ([], s)
+  | own :: r =>
+      let (l, s') := run_stream (snd (conn_query s own false)) r in (brk_may_reject s :: l, s')
+  end.
